@@ -81,6 +81,16 @@ Definition bad_token (scheme host : string) (t : token) (now : Z) (path : list Z
   || (negb (String.eqb scheme "https") && negb (String.eqb host "127.0.0.1"))   (* not over https *)
   || negb (existsb (fun pre => starts_with pre path) (t_prefixes t)).     (* out of scope *)
 
+
+(* token.split('.') on a token given as character codes (46 = '.') *)
+Fixpoint split_dots (s : list Z) : list (list Z) :=
+  match s with
+  | [] => [[]]
+  | c :: t => if c =? 46 then [] :: split_dots t
+              else match split_dots t with [] => [[c]] | x :: r => (c :: x) :: r end
+  end.
+Definition nodot (s : list Z) : bool := forallb (fun c => negb (c =? 46)) s.
+
 (* ---------- wire ---------- *)
 Definition to_exp (x : sx) : expclaim :=
   match x with L [] => ExpAbsent | L (I v :: _) => ExpInt v | _ => ExpInvalid end.
